@@ -40,7 +40,7 @@ def catalogue(K, thorough=False):
     '''Catalogue rows used by the whole-line monitors.'''
     hg = 6 if thorough and K <= 1 else 4      # the two-source group scenarios grow fastest
     rows = [S.FAN(K), S.GATE(K), S.REENT(K), S.REENT(K, src_cycle=1), S.GRP2(K, horizon=hg),
-            S.NEST_MID(K, horizon=hg),
+            S.NEST_MID(K, horizon=hg), S.NEST_OUT(K, horizon=hg),
             S.BATCH(K), S.BATCH(K, pattern=(None, 0, 3), size=3, cap=2, sink_cycle=1),
             S.RES(K), S.RES(K, r=2, q=0), S.RES_SER(K), S.MAINT(K), S.MAINT(K, n=1), S.BLOCK(K),
             S.BUDGET(K), S.REWIRE(K),
@@ -200,7 +200,7 @@ class C08(Check):
         th = tier != 'quick'
         hg = 6 if th and K <= 1 else 4
         specs = [S.FAN(K), S.FAN3(2, horizon=8), S.GRPFAN(K), S.BATCHGATE(K), S.BATCH_DIRECT(K), S.GATE(K), S.REENT(K), S.REENT(K, src_cycle=1), S.GRP2(K, horizon=hg),
-                 S.NEST_MID(K, horizon=hg), S.BLOCK(K), S.BATCH(K), S.REWIRE(K), S.GATEGRP(K)]
+                 S.NEST_MID(K, horizon=hg), S.NEST_OUT(K, horizon=hg), S.BLOCK(K), S.BATCH(K), S.REWIRE(K), S.GATEGRP(K)]
         return _line_jobs(specs, ['route'], tier)
 
 
